@@ -15,10 +15,10 @@ ASSUMPTIONS = ['base texts contain no ESC: rendering is in-band, a text ending i
 
 def plan(tier):
     if tier == 'quick':
-        return [(2, ('plain',), 'PWKp', 2, False), (2, ('plain',), 'LWq', 3, False), (3, ('plain',), 'LQW', 2, False), (2, ('plain',), 'OEAV', 2, False), (3, ('plain',), 'OEW', 2, False), (2, ('plain',), 'IHJSKC', 2, False), (4, ('pairs',), 'R', 0, False), (5, ('pairs',), 'R', 0, False), (3, ('tri', 'trix', 'triw'), 'R', 0, False), (1, ('plain',), 'RBWNX', 2, True), (2, ('plain', 'rainbow'), 'RBWN', 2, True),
+        return [(2, ('widep', 'wide'), 'RW', 1, False), (2, ('plain',), 'PWKp', 2, False), (2, ('plain',), 'LWq', 3, False), (3, ('plain',), 'LQW', 2, False), (2, ('plain',), 'OEAV', 2, False), (3, ('plain',), 'OEW', 2, False), (2, ('plain',), 'IHJSKC', 2, False), (4, ('pairs',), 'R', 0, False), (5, ('pairs',), 'R', 0, False), (3, ('tri', 'trix', 'triw'), 'R', 0, False), (1, ('plain',), 'RBWNX', 2, True), (2, ('plain', 'rainbow'), 'RBWN', 2, True),
                 (3, ('plain',), 'RWXT', 2, False), (2, ('plain',), 'RWqx', 2, True), (2, ('plain',), 'BNpu', 2, False),
                 (3, ('rainbow',), 'Wqx', 1, True), (3, ('plain',), 'Ryb', 2, False), (2, ('plain',), 'WyU', 2, True), (3, ('parsed',), 'RW', 2, True), (2, ('plain',), 'WFy', 2, False), (2, ('plain',), 'UDq', 2, False), (2, ('plain',), 'WN', 3, False), (2, ('plain',), 'RB', 3, False), (3, ('dup1', 'dup2'), 'RW', 1, False), (4, ('rs1', 'rs2'), 'RBW', 1, False), (2, ('wide', 'wide2'), 'RW', 1, False)]
-    return [(3, ('plain',), 'PWKp', 2, False), (2, ('plain',), 'PWKpR', 3, False), (3, ('plain',), 'LWq', 3, False), (2, ('plain',), 'LQWIq', 3, False), (2, ('plain',), 'OEAVW', 3, False), (3, ('plain',), 'OEAVW', 2, False), (2, ('plain',), 'IHJSKCW', 2, True), (5, ('pairs',), 'R', 0, False), (6, ('pairs',), 'R', 0, False), (4, ('pairs',), 'RW', 1, False), (4, ('tri', 'trix', 'triw'), 'R', 0, False), (1, ('plain',), 'RBWNXqx', 3, True), (2, ('plain', 'rainbow'), 'RBWNX', 2, True), (2, ('plain',), 'RWN', 3, True),
+    return [(2, ('widep', 'wide', 'wide2'), 'RW', 2, False), (3, ('plain',), 'PWKp', 2, False), (2, ('plain',), 'PWKpR', 3, False), (3, ('plain',), 'LWq', 3, False), (2, ('plain',), 'LQWIq', 3, False), (2, ('plain',), 'OEAVW', 3, False), (3, ('plain',), 'OEAVW', 2, False), (2, ('plain',), 'IHJSKCW', 2, True), (5, ('pairs',), 'R', 0, False), (6, ('pairs',), 'R', 0, False), (4, ('pairs',), 'RW', 1, False), (4, ('tri', 'trix', 'triw'), 'R', 0, False), (1, ('plain',), 'RBWNXqx', 3, True), (2, ('plain', 'rainbow'), 'RBWNX', 2, True), (2, ('plain',), 'RWN', 3, True),
             (3, ('plain', 'rainbow'), 'RBWNT', 2, True), (2, ('plain',), 'RWqxpu', 2, True), (3, ('plain',), 'RWqx', 2, False),
             (2, ('plain',), 'Rqx', 3, False), (4, ('plain', 'rainbow'), 'RWN', 2, False), (3, ('plain', 'rainbow'), 'RWyb', 2, True), (2, ('plain',), 'Ry', 3, False), (3, ('dup1', 'dup2'), 'RW', 1, False), (4, ('rs1', 'rs2'), 'RBW', 2, False), (2, ('wide', 'wide2'), 'RW', 2, False), (3, ('wide',), 'RW', 1, False)]
 
